@@ -1,4 +1,5 @@
 import GstVerif.Mesh.Model
+import GstProofs.LinAlg.Bridge
 import Mathlib.Tactic.FieldSimp
 import Mathlib.Tactic.Ring
 import Mathlib.Tactic.Linarith
@@ -72,5 +73,82 @@ theorem gram_quadratic_nonneg {m n : Type*} [Fintype m] [Fintype n] [DecidableEq
   exact Finset.sum_nonneg fun i _ => mul_self_nonneg _
 
 example : w2 0 0 4 0 0 4 1 1 = (1/2, 1/4, 1/4) := by norm_num [w2, area2]
+
+/-! ### the precision operator: explicit matrix and matrix-free form -/
+section operator
+open Matrix
+variable {n : Type*} [Fintype n] [DecidableEq n]
+
+/-- `Σ_k b_k S^k` by Horner's scheme on matrices (what `_build_Q` assembles, up to the order of the
+additions) -/
+def polyM (S : Matrix n n ℚ) : List ℚ → Matrix n n ℚ
+  | [] => 0
+  | b :: bs => b • (1 : Matrix n n ℚ) + S * polyM S bs
+
+/-- Horner's scheme on a vector (`ClassicalPolynomial::evalOp`) -/
+def hornerV (S : Matrix n n ℚ) : List ℚ → (n → ℚ) → (n → ℚ)
+  | [], _ => 0
+  | b :: bs, v => b • v + S.mulVec (hornerV S bs v)
+
+/-- the matrix-free evaluation is the product by the assembled polynomial, for every degree -/
+theorem horner_eq (S : Matrix n n ℚ) : ∀ (b : List ℚ) (v : n → ℚ), (polyM S b).mulVec v = hornerV S b v
+  | [], v => by simp [polyM, hornerV]
+  | b :: bs, v => by
+    simp only [polyM, hornerV, Matrix.add_mulVec, Matrix.smul_mulVec, Matrix.one_mulVec]
+    rw [← Matrix.mulVec_mulVec, horner_eq S bs v]
+
+/-- **the two forms of the precision operator agree**: `(Λ p(S) Λ) v = Λ · Horner(p, S)(Λ · v)` for
+every vector, every shift operator, every polynomial -/
+theorem q_forms (S : Matrix n n ℚ) (lam : n → ℚ) (b : List ℚ) (v : n → ℚ) :
+    (Matrix.diagonal lam * polyM S b * Matrix.diagonal lam).mulVec v
+      = fun i => lam i * hornerV S b (fun j => lam j * v j) i := by
+  rw [← Matrix.mulVec_mulVec, ← Matrix.mulVec_mulVec, horner_eq]
+  have hv : (Matrix.diagonal lam).mulVec v = fun j => lam j * v j := by
+    funext j; simp [Matrix.mulVec_diagonal]
+  rw [hv]
+  funext i
+  simp only [Matrix.mulVec_diagonal]
+
+theorem polyM_comm (S : Matrix n n ℚ) : ∀ b : List ℚ, S * polyM S b = polyM S b * S
+  | [] => by simp [polyM]
+  | b :: bs => by
+    simp only [polyM, Matrix.mul_add, Matrix.add_mul, Matrix.mul_smul, Matrix.smul_mul, Matrix.mul_one,
+      Matrix.one_mul, Matrix.mul_assoc]
+    rw [polyM_comm S bs]
+
+theorem polyM_symm (S : Matrix n n ℚ) (hS : S.transpose = S) : ∀ b : List ℚ, (polyM S b).transpose = polyM S b
+  | [] => by simp [polyM]
+  | b :: bs => by
+    simp only [polyM, Matrix.transpose_add, Matrix.transpose_smul, Matrix.transpose_one, Matrix.transpose_mul,
+      polyM_symm S hS bs, hS]
+    rw [polyM_comm S bs]
+
+/-- a symmetric shift operator gives a symmetric precision matrix -/
+theorem q_symm (S : Matrix n n ℚ) (hS : S.transpose = S) (lam : n → ℚ) (b : List ℚ) :
+    (Matrix.diagonal lam * polyM S b * Matrix.diagonal lam).transpose
+      = Matrix.diagonal lam * polyM S b * Matrix.diagonal lam := by
+  simp only [Matrix.transpose_mul, Matrix.diagonal_transpose, polyM_symm S hS b, Matrix.mul_assoc]
+
+end operator
+
+/-- the executable polynomial of the driver is `polyM` (so the certificate `u qform` is a statement
+about Mathlib matrices) -/
+theorem polyMat_toMatrix (n : Nat) (S : GstVerif.LinAlg.Mat) (hr : S.r = n) (hc : S.c = n) : ∀ b : List Q,
+    GstProofs.LinAlg.toMatrix n n (polyMat n S b) = polyM (GstProofs.LinAlg.toMatrix n n S) b ∧
+    (polyMat n S b).r = n ∧ (polyMat n S b).c = n
+  | [] => by
+    refine ⟨?_, by simp [polyMat, GstVerif.LinAlg.Mat.ofFn], by simp [polyMat, GstVerif.LinAlg.Mat.ofFn]⟩
+    ext i j
+    simp only [GstProofs.LinAlg.toMatrix, polyMat, polyM, Matrix.zero_apply]
+    rw [GstProofs.LinAlg.get_ofFn _ _ _ _ _ i.2 j.2]
+  | b :: bs => by
+    obtain ⟨ih, ihr, ihc⟩ := polyMat_toMatrix n S hr hc bs
+    have hid : (GstVerif.LinAlg.Mat.id n).r = n ∧ (GstVerif.LinAlg.Mat.id n).c = n := by
+      simp [GstVerif.LinAlg.Mat.id, GstVerif.LinAlg.Mat.ofFn]
+    refine ⟨?_, by simp [polyMat, GstVerif.LinAlg.Mat.lin, GstVerif.LinAlg.Mat.ofFn, hid.1],
+      by simp [polyMat, GstVerif.LinAlg.Mat.lin, GstVerif.LinAlg.Mat.ofFn, hid.2]⟩
+    simp only [polyMat, polyM]
+    rw [GstProofs.LinAlg.toMatrix_lin n n b 1 _ _ hid.1 hid.2, GstProofs.LinAlg.toMatrix_id,
+      GstProofs.LinAlg.toMatrix_mul n n n S _ hr hc ihc, ih, one_smul]
 
 end GstProofs.C15
